@@ -31,9 +31,17 @@ Record db := mkdb { rows : list (oid * list (nat * option oid)); lnk : list (oid
 Definition has_row (d : db) (o : oid) : bool := existsb (fun r => Nat.eqb (fst r) o) (rows d).
 Definition points_to (o : oid) (cols : list (nat * option oid)) : bool :=
   existsb (fun c => match snd c with Some t => Nat.eqb t o | None => false end) cols.
-(* rows other than o itself that hold o in a foreign-key column *)
+(* The referential action generate_mapping declares for a column is part of the column id: odd ids are ON DELETE SET NULL columns
+   (optional references), even ids have no action the model relies on (NO ACTION; CASCADE is treated as NO ACTION: conservative). *)
+Definition setnull_col (c : nat) : bool := Nat.odd c.
+Definition hard_points_to (o : oid) (cols : list (nat * option oid)) : bool :=
+  existsb (fun c => negb (setnull_col (fst c)) && match snd c with Some t => Nat.eqb t o | None => false end) cols.
+(* rows other than o itself that hold o in a column without SET NULL *)
 Definition referenced (d : db) (o : oid) : bool :=
-  existsb (fun r => negb (Nat.eqb (fst r) o) && points_to o (snd r)) (rows d).
+  existsb (fun r => negb (Nat.eqb (fst r) o) && hard_points_to o (snd r)) (rows d).
+(* ON DELETE SET NULL applied to one row *)
+Definition null_refs (o : oid) (cols : list (nat * option oid)) : list (nat * option oid) :=
+  map (fun c => match snd c with Some t => if Nat.eqb t o && setnull_col (fst c) then (fst c, None) else c | None => c end) cols.
 
 Definition set_cols (old new : list (nat * option oid)) : list (nat * option oid) :=
   new ++ filter (fun c => negb (existsb (fun n => Nat.eqb (fst n) (fst c)) new)) old.
@@ -50,8 +58,8 @@ Definition exec (d : db) (s : stmt) : option db :=
            then Some (mkdb (map (fun r => if Nat.eqb (fst r) o then (o, set_cols (snd r) cols) else r) (rows d)) (lnk d))
            else None
   | SDelete o =>
-      if referenced d o then None          (* ON DELETE actions of the schema are not relied upon here (conservative) *)
-      else Some (mkdb (filter (fun r => negb (Nat.eqb (fst r) o)) (rows d))
+      if referenced d o then None          (* a remaining reference through a column without SET NULL: IntegrityError *)
+      else Some (mkdb (map (fun r => (fst r, null_refs o (snd r))) (filter (fun r => negb (Nat.eqb (fst r) o)) (rows d)))
                       (filter (fun l => negb (Nat.eqb (fst l) o || Nat.eqb (snd l) o)) (lnk d)))     (* link tables: ON DELETE CASCADE *)
   | SLinkIns x y => if has_row d x && has_row d y then Some (mkdb (rows d) ((x, y) :: lnk d)) else None
   | SLinkDel x y => Some (mkdb (rows d) (filter (fun l => negb (Nat.eqb (fst l) x && Nat.eqb (snd l) y)) (lnk d)))
@@ -169,7 +177,7 @@ Definition wf_obj (d : db) (q : list obj) (ob : obj) : bool :=
                 && forallb (fun t => (has_row d t || is_created q t)
                                      && negb (match pending_st q t with Some Deleted => true | _ => false end)) (targets ob)
   | Deleted => has_row d (o_id ob)
-               && forallb (fun r => negb (negb (Nat.eqb (fst r) (o_id ob)) && points_to (o_id ob) (snd r))
+               && forallb (fun r => negb (negb (Nat.eqb (fst r) (o_id ob)) && hard_points_to (o_id ob) (snd r))
                                     || (before q (fst r) (o_id ob)
                                         && match lookup q (fst r) with
                                            | Some rb => match o_st rb with
@@ -182,13 +190,29 @@ Definition wf_obj (d : db) (q : list obj) (ob : obj) : bool :=
 Fixpoint nodup_ids (q : list obj) : bool :=
   match q with [] => true | ob :: q' => negb (existsb (fun x => Nat.eqb (o_id x) (o_id ob)) q') && nodup_ids q' end.
 
+(* objects_to_save may hold the same object more than once (Entity._delete_ re-queues an object that a nested call has queued as
+   'modified' in between): entries with the same id must be the same record.  lookup finds the first slot, drop empties all of them,
+   exactly as _save_ runs at the first slot and the later slot has become None by the time the loop reaches it. *)
+Definition status_eqb (a b : status) : bool :=
+  match a, b with Created, Created | Modified, Modified | Deleted, Deleted => true | _, _ => false end.
+Definition col_eqb (a b : nat * option oid) : bool :=
+  Nat.eqb (fst a) (fst b) && match snd a, snd b with Some x, Some y => Nat.eqb x y | None, None => true | _, _ => false end.
+Fixpoint cols_eqb (a b : list (nat * option oid)) : bool :=
+  match a, b with [], [] => true | x :: a', y :: b' => col_eqb x y && cols_eqb a' b' | _, _ => false end.
+Definition obj_eqb (a b : obj) : bool := Nat.eqb (o_id a) (o_id b) && status_eqb (o_st a) (o_st b) && cols_eqb (o_cols a) (o_cols b).
+Fixpoint coherent_ids (q : list obj) : bool :=
+  match q with
+  | [] => true
+  | ob :: q' => forallb (fun x => negb (Nat.eqb (o_id x) (o_id ob)) || obj_eqb x ob) q' && coherent_ids q'
+  end.
+
 Definition wf_links (d : db) (p : pending) : bool :=
   forallb (fun l => (has_row d (fst l) || is_created (p_queue p) (fst l)) && (has_row d (snd l) || is_created (p_queue p) (snd l))
                     && negb (match pending_st (p_queue p) (fst l) with Some Deleted => true | _ => false end)
                     && negb (match pending_st (p_queue p) (snd l) with Some Deleted => true | _ => false end)) (p_added p).
 
 Definition wf_pending (d : db) (p : pending) : bool :=
-  nodup_ids (p_queue p) && forallb (wf_obj d (p_queue p)) (p_queue p) && wf_links d p
+  coherent_ids (p_queue p) && forallb (wf_obj d (p_queue p)) (p_queue p) && wf_links d p
   && nodup_ids (map (fun r => mkobj (fst r) Created []) (rows d)).
 
 (* the references between new objects can be ordered: a rank that decreases along every reference to a 'created' object *)
